@@ -211,6 +211,20 @@ def make_view(log: Log, is_async: bool):
 METHOD_NAMES = ('whoami', 'ctxp', 'slow', 'fac1', 'fac2', 'ok', 'noargs', 'echo', 'kwonly', 'rpcerr', 'typed', 'boom', 'ctxm', 'view.vm')
 
 
+def build_registry(log: Log, coroutines: bool) -> 'pjrpc.server.MethodRegistry':
+    """The probe registry (functions / coroutines + the class-based view) writing into `log`."""
+    registry = pjrpc.server.MethodRegistry()
+    for name, fn in make_methods(log, coroutines).items():
+        if name in ('ctxm', 'whoami'):
+            registry.add(fn, name, context='ctx')
+        elif name == 'ctxp':
+            registry.add(fn, name, context='ctx', positional=True)
+        else:
+            registry.add(fn, name)
+    registry.view(make_view(log, coroutines), context='context', prefix='view')
+    return registry
+
+
 class World:
     def __init__(self, is_async: bool, max_batch_size: Optional[int] = None, all_coroutines: Optional[bool] = None,
                  **dispatcher_kwargs: Any):
@@ -218,18 +232,9 @@ class World:
         self.log = Log()
         self.max_batch_size = max_batch_size
         coro = is_async if all_coroutines is None else all_coroutines
-        registry = pjrpc.server.MethodRegistry()
-        for name, fn in make_methods(self.log, coro).items():
-            if name in ('ctxm', 'whoami'):
-                registry.add(fn, name, context='ctx')
-            elif name == 'ctxp':
-                registry.add(fn, name, context='ctx', positional=True)
-            else:
-                registry.add(fn, name)
-        registry.view(make_view(self.log, coro), context='context', prefix='view')
         cls = pjrpc.server.AsyncDispatcher if is_async else pjrpc.server.Dispatcher
         self.dispatcher = cls(max_batch_size=max_batch_size, **dispatcher_kwargs)
-        self.dispatcher.add_methods(registry)
+        self.dispatcher.add_methods(build_registry(self.log, coro))
 
     def dispatch(self, text: str, context: Any = None):
         """Returns ('ret', value) or ('exc', exception)."""
